@@ -257,6 +257,10 @@ struct BuildJob<'a> {
     flavour: usize,
     /// forced (log2 trace length, blowup, folding factor, remainder max degree, queries)
     force: Option<(u32, usize, usize, usize, usize)>,
+    /// replace the generated computation by "every column keeps its value" over a constant trace:
+    /// a deliberately DEGENERATE base (low-degree everything, remainder with zero upper half),
+    /// only for arms whose faults are refused on such proofs too
+    constant: bool,
 }
 
 impl<'a> Job for BuildJob<'a> {
@@ -268,6 +272,23 @@ impl<'a> Job for BuildJob<'a> {
         for _attempt in 0..(if self.force.is_some() { 200 } else { 20 }) {
             let lim = GenLimits { max_log_len: self.force.map(|f| f.0.max(3)).unwrap_or(4), max_width: if self.flavour == 2 { 12 } else { 4 }, max_grinding: 0, allow_aux: self.flavour == 1 };
             let mut case = gen_case::<B>(self.ch, &lim);
+            if self.constant {
+                let w = case.shape.width.min(3);
+                let mut shape = case.shape.clone();
+                shape.width = w;
+                if let Some((ll, ..)) = self.force {
+                    shape.log_len = ll;
+                }
+                shape.rules = (0..w).map(|c| Rule::Const { col: c }).collect();
+                shape.periodic = vec![];
+                shape.exemptions = 1;
+                shape.aux = None;
+                shape.assertions = vec![AssertSpec { kind: AssertKind::Single, col: 0, first: 0, stride: 0, count: 1 }];
+                let row: Vec<B> = (0..w).map(|c| felt::<B>(7 + 1000 * c as u64 + self.ch.pick("const.value", 1 << 20))).collect();
+                case.rows = vec![row; shape.len()];
+                case.inputs = SimInputs::from_trace(&shape, &case.rows);
+                case.shape = shape;
+            }
             if let Some((ll, fb, _, _, _)) = self.force {
                 if case.shape.log_len != ll || case.shape.min_blowup() > fb {
                     continue;
@@ -291,7 +312,7 @@ impl<'a> Job for BuildJob<'a> {
                 vals.dedup();
                 vals.len() >= n / 2
             });
-            if !lively {
+            if !lively && !self.constant {
                 continue;
             }
             // small, fixed-size options so that enumeration stays affordable
@@ -341,7 +362,7 @@ pub fn fresh_base(ch: &mut Chooser) -> Option<Box<dyn Base>> {
     let cfg = CONFIGS[ch.index("fresh.cfg", CONFIGS.len())];
     let ext = [FieldExtension::None, FieldExtension::Quadratic, FieldExtension::Cubic][ch.index("fresh.ext", 3)];
     let flavour = ch.weighted("fresh.flavour", &[3, 2, 1, 1]);
-    dispatch(cfg, BuildJob { ch, cfg, ext, flavour, force: None })
+    dispatch(cfg, BuildJob { ch, cfg, ext, flavour, force: None, constant: false })
 }
 
 static BASES: Mutex<BTreeMap<u64, &'static [Box<dyn Base>]>> = Mutex::new(BTreeMap::new());
@@ -370,7 +391,7 @@ pub fn bases(seed: u64) -> &'static [Box<dyn Base>] {
                 }
                 k += 1;
                 let mut ch = Chooser::record(simcore::rng::stream(seed, "hostile-bases", k));
-                if let Some(b) = dispatch(*cfg, BuildJob { ch: &mut ch, cfg: *cfg, ext: *ext, flavour: fl, force: None }) {
+                if let Some(b) = dispatch(*cfg, BuildJob { ch: &mut ch, cfg: *cfg, ext: *ext, flavour: fl, force: None, constant: false }) {
                     out.push(b);
                 }
             }
@@ -403,9 +424,22 @@ pub fn grid_base(seed: u64, i: usize) -> Option<&'static dyn Base> {
         let cfg = CONFIGS[[0usize, 10, 3, 6][i % 4]];
         let exts = [FieldExtension::None, FieldExtension::Quadratic];
         let mut ch = Chooser::record(simcore::rng::stream(seed, "hostile-grid", i as u64));
-        dispatch(cfg, BuildJob { ch: &mut ch, cfg, ext: exts[(i / 4) % 2], flavour: 0, force: Some((ll, b, f, r, 2 + i % 3)) })
+        dispatch(cfg, BuildJob { ch: &mut ch, cfg, ext: exts[(i / 4) % 2], flavour: 0, force: Some((ll, b, f, r, 2 + i % 3)), constant: false })
     })
     .as_deref()
+}
+
+/// a freshly built DEGENERATE base: constant trace, remainder of at least two coefficients whose
+/// upper part is zero (see `BuildJob::constant`)
+pub fn constant_base(ch: &mut Chooser) -> Option<Box<dyn Base>> {
+    let cfg = CONFIGS[ch.index("const.cfg", CONFIGS.len())];
+    let ext = [FieldExtension::None, FieldExtension::Quadratic, FieldExtension::Cubic][ch.index("const.ext", 3)];
+    let ll = 3 + ch.index("const.loglen", 4) as u32;
+    let blowup = [2usize, 4, 8][ch.index("const.blowup", 3)];
+    let folding = [2usize, 4, 8][ch.index("const.folding", 3)];
+    let rmax = [1usize, 3, 7, 15, 31][ch.index("const.rmax", 5)];
+    let q = 1 + ch.index("const.q", 6);
+    dispatch(cfg, BuildJob { ch, cfg, ext, flavour: 0, force: Some((ll, blowup, folding, rmax, q)), constant: true })
 }
 
 pub fn describe_bases(seed: u64) -> Vec<String> {
